@@ -103,10 +103,12 @@ def build_lib():
     with Lock("lib"):
         if os.path.exists(os.path.join(libdir, "OK")):
             return libdir, None
-        # remove stale library caches (disk space)
+        # remove stale library caches (disk space): keep the 8 most recent, never one younger than 45 min
         if os.path.isdir(CACHE):
-            for n in os.listdir(CACHE):
-                if n.startswith("lib-") and n != "lib-" + h:
+            olds = sorted((os.path.getmtime(os.path.join(CACHE, n)), n) for n in os.listdir(CACHE)
+                          if n.startswith("lib-") and n != "lib-" + h)
+            for mt, n in olds[:-8] if len(olds) > 8 else []:
+                if time.time() - mt > 2700:
                     shutil.rmtree(os.path.join(CACHE, n), ignore_errors=True)
         os.makedirs(os.path.join(libdir, "obj"), exist_ok=True)
         gen_version_hpp(os.path.join(libdir, "gen", "version.hpp"))
@@ -323,8 +325,10 @@ def matches_finding(k, fail):
 # ----------------------------------------------------------------------------------------------
 
 def write_evidence(prop, ev):
-    os.makedirs(os.path.join(VERIF, "evidence"), exist_ok=True)
-    with open(os.path.join(VERIF, "evidence", prop + ".json"), "w") as f:
+    # runs against a scratch copy of the repository (LP_REPO) never touch the committed evidence
+    evdir = os.path.join(VERIF, "evidence") if os.path.realpath(REPO) == "/repo" else os.path.join(CACHE, "evidence-scratch")
+    os.makedirs(evdir, exist_ok=True)
+    with open(os.path.join(evdir, prop + ".json"), "w") as f:
         json.dump(ev, f, indent=1, default=str)
 
 
@@ -431,7 +435,9 @@ def check(prop, tier, seed, replay=None):
                 concrete = mod.shrink(concrete, exe, ctx) or concrete
             except Exception:
                 pass
-        rp = os.path.join(VERIF, "replays", "%s-%s-%d.json" % (prop, "replay" if replay else tier, seed))
+        rpdir = os.path.join(VERIF, "replays") if os.path.realpath(REPO) == "/repo" else os.path.join(CACHE, "replays-scratch")
+        os.makedirs(rpdir, exist_ok=True)
+        rp = os.path.join(rpdir, "%s-%s-%d.json" % (prop, "replay" if replay else tier, seed))
         body = dict(property=prop, tier=tier, seed=seed,
                     replay_cmd="python3 check.py %s --replay %s" % (prop, os.path.relpath(rp, VERIF)),
                     repo_hash=repo_hash(),
@@ -497,6 +503,13 @@ def setup():
 
 
 def main():
+    # the tooling venv (python3-vt) carries mpmath/numpy/scipy used by some comparators as references
+    if os.environ.get("LP_REEXEC") != "1" and shutil.which("python3-vt"):
+        try:
+            import mpmath  # noqa: F401
+        except ImportError:
+            os.environ["LP_REEXEC"] = "1"
+            os.execvp("python3-vt", ["python3-vt"] + sys.argv)
     ap = argparse.ArgumentParser()
     ap.add_argument("prop", nargs="?")
     ap.add_argument("--tier", default=os.environ.get("VERIF_TIER", "quick"), choices=["quick", "thorough"])
